@@ -287,6 +287,8 @@ def _op_str(op):
         return f"delfn {op['func']}"
     if k == "insfn":
         return f"insfn {op['name']}: " + _patch_str(op["patch"])
+    if k == "reg":
+        return f"reg {json.dumps(op['scope'])}: " + _patch_str(op["patch"])
     return json.dumps(op)[:80]
 
 
